@@ -1156,7 +1156,7 @@ MUTANTS = [
     _m("ext2d-vertical-signs-from-constants", "cf_data_vertical = np.hstack((cf_data_vertical, cf_data_2d))", "cf_data_vertical = np.hstack((cf_data_vertical, np.ones(cf_rows_2d.size)))",
        "R2", file=EXT),
     # reverted forms of the applied fixes
-    _m("revert-fix-1f111df5c-vertical-signs-from-constants", "    cf_data = np.vstack((cf_sgn_vert, -tmp, tmp)).ravel(\"F\")", "    cf_data = np.vstack((-tmp, tmp, -tmp, tmp)).ravel(\"F\")",
+    _m("revert-fix-ccc664e71-vertical-signs-from-constants", "    cf_data = np.vstack((cf_sgn_vert, -tmp, tmp)).ravel(\"F\")", "    cf_data = np.vstack((-tmp, tmp, -tmp, tmp)).ravel(\"F\")",
        "R2", file=EXT),
     _m("ext1d-vertical-signs-interleaved", "    cf_sgn_vert = np.tile(\n        g.cell_faces.data.reshape((2, -1), order=\"F\"), num_cell_layers\n    )",
        "    cf_sgn_vert = np.repeat(\n        g.cell_faces.data.reshape((2, -1), order=\"F\"), num_cell_layers, axis=1\n    )", "R2", file=EXT),
